@@ -1,4 +1,5 @@
 //! C12 — size, weight, vsize and discount weight equal the real serialized sizes.
+use crate::refimpl::Variant as _;
 use elements::encode::serialize;
 use elements::{Block, Transaction};
 use serde_json::json;
@@ -46,10 +47,10 @@ pub fn check_tx_sizes(tx: &Transaction, ctx: &mut Ctx) -> R {
             enc::out_witness(&mut w, &o.witness);
             discount += w.len().saturating_sub(2);
         }
-        if o.value.is_confidential() {
+        if o.value.v_conf() {
             discount += 4 * 24;
         }
-        if o.nonce.is_confidential() {
+        if o.nonce.v_conf() {
             discount += 4 * 32;
         }
     }
